@@ -312,6 +312,99 @@ func init() {
 	})
 }
 
+// c02big: a database the size of the shipped one (thousands of entries) with groups of entries that tie exactly in every
+// score, searched repeatedly with NLP on: anything that is done differently for large corpora (batched or concurrent scoring,
+// early cut-offs) must still give one answer for one request.  Usage: tool c02big <seed> [entries]
+func init() {
+	RegisterTool("c02big", func(args []string) int {
+		seed, n := uint64(1), 5000
+		if len(args) > 0 {
+			v, _ := strconv.ParseUint(args[0], 10, 64)
+			seed = v
+		}
+		if len(args) > 1 {
+			n, _ = strconv.Atoi(args[1])
+		}
+		r := NewRng(seed, 0, "c02big")
+		cmds := make([]database.Command, 0, n)
+		twins := []database.Command{
+			{Command: "rsync -av src/ dest/", Description: "synchronise two directories keeping permissions", Keywords: []string{"sync", "copy", "mirror"}},
+			{Command: "du -sh * | sort -h", Description: "show disk usage of every entry sorted by size", Keywords: []string{"disk", "usage", "size"}},
+			{Command: "journalctl -u unit --since today", Description: "show the log of one service since midnight", Keywords: []string{"log", "service"}},
+		}
+		for i := 0; i < n; i++ {
+			if i%97 == 5 || i%113 == 7 {
+				c := twins[(i/7)%len(twins)]
+				c.Niche = "copy" + strconv.Itoa(i) // differs only in a field no score reads
+				cmds = append(cmds, c)
+				continue
+			}
+			cmds = append(cmds, database.Command{Command: "tool" + strconv.Itoa(i) + " --" + Pick(r, wordPool), Description: rphrase(r, 3, 8) + " item" + strconv.Itoa(i),
+				Keywords: []string{Pick(r, wordPool), "k" + strconv.Itoa(i%50)}})
+		}
+		dir, err := os.MkdirTemp("", "wtfverif-c02big")
+		if err != nil {
+			return 2
+		}
+		defer os.RemoveAll(dir)
+		data, _ := yaml.Marshal(cmds)
+		p := filepath.Join(dir, "db.yml")
+		if os.WriteFile(p, data, 0o644) != nil {
+			return 2
+		}
+		db, err := database.LoadDatabase(p)
+		if err != nil {
+			os.Stdout.WriteString("c02big: load failed: " + err.Error() + "\n")
+			return 2
+		}
+		queries := []string{"synchronise two directories", "show disk usage sorted by size", "show the log of one service", "copy mirror sync", "disk usage", "service log since midnight"}
+		bad, ties := 0, 0
+		for qi, q := range queries {
+			for _, lim := range []int{3, 10} {
+				o := database.SearchOptions{Limit: lim, UseNLP: true, AllPlatforms: true}
+				first := db.SearchUniversal(q, o)
+				firstN := db.SearchWithNLP(q, o)
+				for i := 1; i < len(first); i++ {
+					if first[i].Score == first[i-1].Score {
+						ties++
+					}
+				}
+				for k := 0; k < 6; k++ {
+					d2 := db
+					if k == 5 && qi == 0 { // a freshly loaded copy of the same file
+						if x, e := database.LoadDatabase(p); e == nil {
+							d2 = x
+						}
+					}
+					if again := d2.SearchUniversal(q, o); !sameAnswer(db, first, d2, again) {
+						bad++
+						os.Stdout.WriteString("MISMATCH SearchUniversal query=" + strconv.Quote(q) + " limit=" + strconv.Itoa(lim) + " first=" + joinInts(answerIDs(db, first)) + " again=" + joinInts(answerIDs(d2, again)) + "\n")
+						break
+					}
+					if again := d2.SearchWithNLP(q, o); !sameAnswer(db, firstN, d2, again) {
+						bad++
+						os.Stdout.WriteString("MISMATCH SearchWithNLP query=" + strconv.Quote(q) + " limit=" + strconv.Itoa(lim) + " first=" + joinInts(answerIDs(db, firstN)) + " again=" + joinInts(answerIDs(d2, again)) + "\n")
+						break
+					}
+				}
+			}
+		}
+		os.Stdout.WriteString("c02big entries=" + strconv.Itoa(len(db.Commands)) + " requests=" + strconv.Itoa(len(queries)*2) + " tied-neighbours=" + strconv.Itoa(ties) + " mismatches=" + strconv.Itoa(bad) + "\n")
+		if bad > 0 {
+			return 1
+		}
+		return 0
+	})
+}
+
+func joinInts(xs []int) string {
+	out := make([]string, len(xs))
+	for i, x := range xs {
+		out[i] = strconv.Itoa(x)
+	}
+	return "[" + strings.Join(out, " ") + "]"
+}
+
 func eqStrings(a, b []string) bool {
 	if len(a) != len(b) {
 		return false
